@@ -1,7 +1,10 @@
 /-
   MiniPy: a deep embedding of the tiny loop-free fragment of Python in which pydap's slice arithmetic is
   written (integers, None, booleans, slice objects, `or`/`and`, comparisons, `is None`, `isinstance(x, int)`,
-  `min`, if/elif/else, assignment, augmented assignment, raise).  `harness/py2lean.py` translates the
+  `min`, if/elif/else, assignment, augmented assignment, raise), extended in a second round for the chunk-header,
+  size/padding and routing blocks: `& | >> << % //`, unary minus, `!=`, text as lists of code points (constants,
+  `==`/`!=`, `[:n]`, `[n:]`, `[i]`, `[::-1]`, `startswith`, `"{0:0Nb}".format`, `int()`, `bool()`, literal str→str
+  dict lookup, `os.path.join(x, "")`), `in` on literal int tuples, `int(np.prod(shape))`.  `harness/py2lean.py` translates the
   *source text* of the chosen function bodies into `Stmt` values (pure syntax → syntax); the semantics below is the
   trusted reading of that fragment.  Theorems in Props/ relate the interpreted source to the hand-written model.
 -/
@@ -49,6 +52,10 @@ inductive Expr where
   | intOf (e : Expr) | boolOf (e : Expr)      -- `int(e)`, `bool(e)`
   | strMap (tbl : List (List Nat × List Nat)) (k : Expr)   -- `{"0": ">", "1": "<"}[k]` (literal str → str dict)
   | prod (e : Expr)                           -- `int(np.prod(e))` of a tuple of ints
+  | takeN (e : Expr) (n : Nat)                -- `e[:n]`
+  | dropN (e : Expr) (n : Nat)                -- `e[n:]`
+  | startswith (a b : Expr)                   -- `a.startswith(b)`
+  | joinEmpty (e : Expr)                      -- `os.path.join(e, "")` (posixpath)
 deriving Repr, Inhabited
 
 inductive Stmt where
@@ -147,6 +154,10 @@ def pyInt : Val → Except Err Int
 def strLookup : List (List Nat × List Nat) → List Nat → Except Err Val
   | [], _ => .error .keyError
   | (k, v) :: t, x => if k = x then .ok (.str v) else strLookup t x
+
+/-- `posixpath.join(a, "")`: a separator is appended unless `a` is empty or already ends with one -/
+def joinEmpty (a : List Nat) : List Nat :=
+  if a.isEmpty || a.getLast? = some 47 then a else a ++ [47]
 
 def prodInts : List Int → Int
   | [] => 1
@@ -252,6 +263,24 @@ def eval (env : Env) : Expr → Except Err Val
   | .prod e => do
       match (← eval env e) with
       | .ilist l => .ok (.int (prodInts l))
+      | _ => .error .typeError
+  | .takeN e n => do
+      match (← eval env e) with
+      | .str cs => .ok (.str (cs.take n))
+      | .ilist l => .ok (.ilist (l.take n))
+      | _ => .error .typeError
+  | .dropN e n => do
+      match (← eval env e) with
+      | .str cs => .ok (.str (cs.drop n))
+      | .ilist l => .ok (.ilist (l.drop n))
+      | _ => .error .typeError
+  | .startswith a b => do
+      match (← eval env a), (← eval env b) with
+      | .str x, .str y => .ok (.bool (y.isPrefixOf x))
+      | _, _ => .error .unsupported
+  | .joinEmpty e => do
+      match (← eval env e) with
+      | .str cs => .ok (.str (joinEmpty cs))
       | _ => .error .typeError
 
 def exec (env : Env) : Stmt → Except Err Env
